@@ -177,13 +177,18 @@ pub fn generate(rng: &mut Rng, tier: Tier) -> Plan {
     let tod = if settle.is_some() { gen_tod(rng) } else { None };
     let float_only = rng.chance(0.3);
     let far_decade: Option<f64> = if rng.chance(0.02) {
-        // keep every cross and every cross/quote finite: |decade| * n <= ~240
-        let choices: &[f64] = if n <= 8 {
-            &[10.0, -10.0, 12.0, -12.0, 25.0, -25.0, 30.0, -30.0]
+        // rateslib's reciprocal rule squares its argument: keep every cross within 1e+-140
+        // so that no intermediate of ANY evaluation order under- or overflows
+        let choices: Vec<f64> = [10.0, -10.0, 12.0, -12.0, 25.0, -25.0, 30.0, -30.0, 8.0, -8.0]
+            .iter()
+            .cloned()
+            .filter(|e: &f64| (e.abs() + 0.5) * (n as f64 - 1.0) <= 140.0)
+            .collect();
+        if choices.is_empty() {
+            None
         } else {
-            &[10.0, -10.0, 8.0, -8.0]
-        };
-        Some(*rng.pick(choices))
+            Some(*rng.pick(&choices))
+        }
     } else {
         None
     };
